@@ -1229,6 +1229,33 @@ func (env *specEnv) locOf(e ast.Expr) []*locRef {
 		env.fail("bad location %s", exprString(e))
 	case *ast.CallExpr:
 		if id, ok := t.Fun.(*ast.Ident); ok {
+			if id.Name == "ghostall" && len(t.Args) == 1 {
+				// every cell of a ghost function
+				gid, ok := t.Args[0].(*ast.Ident)
+				if !ok || ex.eng.cs.Ghosts[gid.Name] == nil {
+					env.fail("ghostall expects the name of a ghost function")
+				}
+				g := ex.eng.cs.Ghosts[gid.Name]
+				var sorts []Sort
+				for _, f := range g.Params {
+					ty := ex.eng.resolveType(f.Type, g.PkgPath)
+					if ty == nil {
+						env.fail("ghost %s: unknown parameter type", g.Name)
+					}
+					for range f.Names {
+						sorts = append(sorts, shapeOf(ty)...)
+					}
+				}
+				if len(sorts) == 0 {
+					sorts = []Sort{IntSort}
+				}
+				rt := ex.eng.resolveType(g.Result, g.PkgPath)
+				var clss []*HeapClass
+				for j, srt := range shapeOf(rt) {
+					clss = append(clss, ex.eng.class(fmt.Sprintf("G:%s#%d", g.Name, j), sorts, srt, false))
+				}
+				return []*locRef{{classes: clss, region: func(key []*Term) *Term { return True }}}
+			}
 			if g := ex.eng.cs.Ghosts[id.Name]; g != nil {
 				clss, key := env.ghostRef(g, t.Args)
 				return []*locRef{{classes: clss, key: key}}
